@@ -58,6 +58,8 @@ type VerifState struct {
 	WaitLists      map[string][]uuid.UUID
 	IsShuttingDown bool
 	Defs           *definition.PipelinesDef
+	// PersistPending is the number of buffered, not yet handled save requests (0 or 1)
+	PersistPending int
 }
 
 func verifJob(j *PipelineJob) VerifJob {
@@ -113,6 +115,7 @@ func VerifDump(r *PipelineRunner) VerifState {
 		WaitLists:      make(map[string][]uuid.UUID),
 		IsShuttingDown: r.isShuttingDown,
 		Defs:           r.defs,
+		PersistPending: len(r.persistRequests),
 	}
 	for _, j := range r.jobsByID {
 		st.Jobs = append(st.Jobs, verifJob(j))
